@@ -62,8 +62,26 @@ def run(sh):
         w = sh.worker("R", cwd=d)
         n = 0
         while not sh.expired():
-            k = rng.below(10)
-            if k < 5:
+            k = rng.below(11)
+            if k == 10:
+                # large outputs: sizes straddling the usual buffer sizes (1 KiB line buffer, 8 KiB block buffer, 64 KiB
+                # pipe), with preserved multi-line comments (the only line breaks of compressed output) at the start, in
+                # the middle or near the end, and non-ASCII text -- every byte must arrive, whatever the destination
+                size = rng.choice([600, 1000, 1100, 2000, 4000, 8100, 8300, 20000, 66000, 140000]) + rng.below(200)
+                rule = lambda i: ".r%d-%s { w: %dpx; c: \"%s\"; }\n" % (i, "x" * rng.below(12), i, rng.choice(["a", "é", "\\61 b"]))
+                rules = []
+                total = 0
+                i = 0
+                while total < size:
+                    r_ = rule(i)
+                    rules.append(r_)
+                    total += len(r_)
+                    i += 1
+                for pos in rng.sample([0, len(rules) // 2, max(0, len(rules) - 2), len(rules)], rng.range(0, 2)):
+                    rules.insert(pos, "/*! kept\n * comment %d\n */\n" % pos)
+                text, syntax = "".join(rules), "scss"
+                sh.count("large_output_cases")
+            elif k < 5:
                 it = rng.choice(items)
                 text, syntax = it["input"], it["spec"].get("syntax") or "scss"
             elif k < 7:
